@@ -581,7 +581,7 @@ def main(run):
         raise Infra("coq evaluation failed: " + errs[0])
     nmain = len(terms)
     distinct = set()
-    n_dom = 0
+    n_dom = n_out = n_out_dis = 0
     f15_seen = False
     for j, v in zip(idx, vals[:nmain]):
         c = cases[j]
@@ -613,6 +613,8 @@ def main(run):
             run.violation("a well-formed filter definition (corpus) is rejected", rep)
             continue
         if not (bits & 4):
+            n_out += 1
+            n_out_dis += 0 if (bits & 1) else 1
             continue
         n_dom += 1
         if not (bits & 2):
@@ -702,7 +704,7 @@ def main(run):
                        "injected malformation (structure, JSON text, armor, regex, number, time stamp, UUID), 37% armored; plus base64 engine cases; "
                        "plus behavioural comparison of given/re-serialised/armored definitions on generated journals; "
                        "non-trivial = accepted definition; distinct = distinct serialisations")
-    run.notes.update({"injected": tagc, "outcome": outcome, "in_text_domain": n_dom, "base64_cases": n_b64,
+    run.notes.update({"injected": tagc, "outcome": outcome, "in_text_domain": n_dom, "outside_text_domain_skipped": n_out, "outside_text_domain_model_differs": n_out_dis, "base64_cases": n_b64,
                       "behaviour_cases": n_beh, "whole_string_cases": n_whole, "behaviour_distinct_partial_selections": len(beh_distinct)})
     return run.finish(info)
 
